@@ -11,7 +11,7 @@ import (
 
 func main() {
 	p := &vdrive.Plan{
-		Scenarios:      control.VerifTaskPoolScenarios(),
+		Scenarios:      append(control.VerifTaskPoolScenarios(), control.VerifEndpointPoolScenarios()...),
 		QuickBounds:    []vsched.Bound{{0, 0}, {1, 1}, {2, 1}},
 		ThoroughBounds: []vsched.Bound{{0, 0}, {1, 1}, {2, 1}, {2, 2}, {3, 2}},
 		PerScenario: map[string]map[string][]vsched.Bound{
